@@ -82,7 +82,12 @@ func c08Case(w *core.Worker, i int) {
 			if j == kk {
 				switch fail {
 				case "rowlen":
-					row = fmt.Sprintf("(%d, 'n%d')", 1000+j, j)
+					// the rejected row holds values that live elsewhere: a cell of another table and a variable
+					if kk%2 == 0 {
+						row = fmt.Sprintf("(%d, (SELECT u.c1 FROM u WHERE u.id = 2))", 1000+j)
+					} else {
+						row = fmt.Sprintf("(%d, @keep, (SELECT u.c1 FROM u WHERE u.id = 1), 'n%d')", 1000+j, j)
+					}
 				case "divzero":
 					row = fmt.Sprintf("(%d, 10 / 0, 'm%d')", 1000+j, j)
 				case "unknown-field":
@@ -127,7 +132,7 @@ func c08Case(w *core.Worker, i int) {
 		if fail != "rowlen" && fail != "divzero" {
 			valid = false
 		}
-		bad := "(2)"
+		bad := "(2, (SELECT u.c1 FROM u WHERE u.id = 2), @keep)"
 		if fail == "divzero" {
 			bad = "(2, 10 / 0)"
 		}
@@ -191,6 +196,11 @@ func c08Case(w *core.Worker, i int) {
 		return s.Exec(q)
 	}
 	run(fmt.Sprintf("DECLARE f FUNCTION (@x) AS BEGIN IF @x = %d THEN TRIGGER ERROR 70 'boom'; END IF; RETURN @x; END;", k))
+	run("VAR @keep := 'kept';")
+	// every other case runs with poison-on-discard: a value handed back to the allocator although a table cell or a
+	// variable still refers to it shows up at once instead of after the next allocation
+	verifhook.SetPoison(i%2 == 1)
+	defer verifhook.SetPoison(false)
 	dirty := false
 	switch state {
 	case "selected":
@@ -219,6 +229,9 @@ func c08Case(w *core.Worker, i int) {
 				continue
 			}
 			m[n] = res.Views[0].String()
+		}
+		if res := s.Exec("SELECT @keep;"); res.Err == nil && len(res.Views) == 1 {
+			m["@keep"] = res.Views[0].String()
 		}
 		return m
 	}
@@ -255,7 +268,7 @@ func c08Case(w *core.Worker, i int) {
 		viol("internal-failure", res.Err.Error())
 	}
 	after := snap()
-	for _, n := range tables {
+	for _, n := range append(append([]string{}, tables...), "@keep") {
 		if before[n] != after[n] {
 			viol("table-changed", fmt.Sprintf("table %s differs after the failed statement (error: %s)\nbefore: %s\nafter:  %s", n, truncateStr(res.Err.Error(), 120), truncateStr(before[n], 400), truncateStr(after[n], 400)))
 		}
